@@ -110,3 +110,25 @@ Qed.
 
 Theorem gen_nonce_encs_alike : cose_EncryptMessage_Encrypt_nonce_enc = cose_Encrypt0Message_Encrypt_nonce_enc.
 Proof. reflexivity. Qed.
+
+(* ---------------------------------------------------------------- what reaches the primitive
+   In each of the ten methods there is exactly one assignment to m.toSign / m.toMac / m.toEnc and exactly one call of
+   the primitive. Producing: the structure is built by the builder of the wire struct being assembled (mm) from the
+   caller's external data and handed to the primitive as it is. Consuming: it is built by the builder of the DECODED
+   wire struct (m.mm: the received protected bytes and payload, never re-encoded values) from the caller's external
+   data, and the primitive is handed that and the received signature / tag / ciphertext; the AEAD gets `iv` as nonce
+   (the variable the nonce-selection slice computes). The builders themselves are Gen/StructsGen.structure_builders. *)
+Open Scope string_scope.
+Definition expected_prim_calls : list (string * (list string * list string)) :=
+  [("cose.Sign1Message_WithSign", (["m.toSign = mm.toSign(ext)"], ["p.Sign(m.toSign)"]));
+   ("cose.Mac0Message_Compute", (["m.toMac = mm.toMac(ext)"], ["p.MACCreate(m.toMac)"]));
+   ("cose.MacMessage_Compute", (["m.toMac = mm.toMac(ext)"], ["p.MACCreate(m.toMac)"]));
+   ("cose.Encrypt0Message_Encrypt", (["m.toEnc = mm.toEnc(ext)"], ["p.Encrypt(iv, plaintext, m.toEnc)"]));
+   ("cose.EncryptMessage_Encrypt", (["m.toEnc = mm.toEnc(ext)"], ["p.Encrypt(iv, plaintext, m.toEnc)"]));
+   ("cose.Sign1Message_Verify", (["m.toSign = m.mm.toSign(ext)"], ["p.Verify(m.toSign, m.mm.Signature)"]));
+   ("cose.Mac0Message_Verify", (["m.toMac = m.mm.toMac(ext)"], ["p.MACVerify(m.toMac, m.mm.Tag)"]));
+   ("cose.MacMessage_Verify", (["m.toMac = m.mm.toMac(ext)"], ["p.MACVerify(m.toMac, m.mm.Tag)"]));
+   ("cose.Encrypt0Message_Decrypt", (["m.toEnc = m.mm.toEnc(ext)"], ["p.Decrypt(iv, m.mm.Ciphertext, m.toEnc)"]));
+   ("cose.EncryptMessage_Decrypt", (["m.toEnc = m.mm.toEnc(ext)"], ["p.Decrypt(iv, m.mm.Ciphertext, m.toEnc)"]))].
+Theorem primitives_get_the_structure : prim_calls = expected_prim_calls.
+Proof. reflexivity. Qed.
